@@ -222,6 +222,14 @@ func (c *Ctx) evalSpec(env *SpecEnv, e *SExpr) Value {
 		return c.specQuant(env, e)
 	case "sel":
 		return c.specSel(env, e)
+	case "tupsel":
+		v := c.evalSpec(env, e.Args[0])
+		tv, ok := v.(*TupleV)
+		i, _ := strconv.Atoi(e.Name)
+		if !ok || i >= len(tv.V) {
+			specError("tuple selection %s on %s", e, showValue(v))
+		}
+		return tv.V[i]
 	case "index":
 		base := c.evalSpec(env, e.Args[0])
 		if m, ok := base.(MapV); ok {
@@ -1612,6 +1620,7 @@ func (c *Ctx) checkCalls(st *State, fr *Frame, where string) {
 	if fr.Fn != c.Fn || c.Spec == nil {
 		return
 	}
+	c.callsAtReturn = where == "return"
 	for i, cl := range c.Spec.Calls {
 		c.checkCallClause(st, fr, cl, i)
 	}
@@ -1638,6 +1647,9 @@ func (c *Ctx) checkCallClause(st *State, fr *Frame, cl Clause, i int) {
 			}
 			n++
 			env := c.specEnvFor(st, fr)
+			if c.callsAtReturn {
+				env.result, env.hasResult = c.curRet, true
+			}
 			for k, b := range binders {
 				if b.Kind != "ident" {
 					specError("call pattern binders must be identifiers")
@@ -1663,6 +1675,9 @@ func (c *Ctx) checkCallClause(st *State, fr *Frame, cl Clause, i int) {
 		return
 	}
 	env := c.specEnvFor(st, fr)
+	if c.callsAtReturn {
+		env.result, env.hasResult = c.curRet, true
+	}
 	c.oblige(st, name, "calls", c.evalBool(env, e), cl.Src, token.NoPos)
 }
 
